@@ -57,7 +57,7 @@ theorem C12_reopen_id (c : Cfg) (hc : c.closeFlushesWal = true ∧ c.flushOrder 
 /-- **Timestamp monotonicity.**  In every reachable state — in particular right after any reopen
 or crash recovery — the oracle's next commit timestamp is larger than every stored version. -/
 theorem C12_ts_monotone (c : Cfg)
-    (hc : c.seedMem = true ∧ c.seedTables = true ∧ c.seedPlusOne = true) (sync : Bool) (ops : List Op) :
+    (hc : c.seedMem = true ∧ c.seedTables = true ∧ c.seedPlusOne = true ∧ c.seedGe = true) (sync : Bool) (ops : List Op) :
     ∀ r ∈ written (run c (s0 sync) ops), r.ver < (run c (s0 sync) ops).nextTs := by
   have hI : TsInv (run c (s0 sync) ops) := by
     refine reach_inv c TsInv (fun _ _ => True) ?_ ?_ ?_ (s0 sync) ?_ ops
@@ -78,16 +78,23 @@ theorem C12_append_version (s : St) (e : Ent) (fin : Bool) (hne : s.segs ≠ [])
 
 /-- an oracle seeded with the maximum itself (instead of maximum + 1) would hand out a stored version again -/
 theorem C12_fails_seedNoPlus (c : Cfg) (hc : c.seedPlusOne = false) :
-    ¬ ∀ r ∈ written (run { Cfg.good with seedPlusOne := c.seedPlusOne } (s0 true) [.commit 1 [(⟨1, false⟩, {})] false, .reopen]),
-        r.ver < (run { Cfg.good with seedPlusOne := c.seedPlusOne } (s0 true) [.commit 1 [(⟨1, false⟩, {})] false, .reopen]).nextTs := by
+    ¬ ∀ r ∈ written (run { Cfg.good with seedPlusOne := c.seedPlusOne } (s0 true) [.commit 1 [(⟨1, false, 0⟩, {})] false, .reopen]),
+        r.ver < (run { Cfg.good with seedPlusOne := c.seedPlusOne } (s0 true) [.commit 1 [(⟨1, false, 0⟩, {})] false, .reopen]).nextTs := by
+  rw [hc]; decide
+
+/-- with `committed > nextTxnTs` instead of `>=` a database holding exactly one committed
+transaction (version 1) reopens with the oracle still at 1: the next commit reuses version 1 -/
+theorem C12_fails_seedGt (c : Cfg) (hc : c.seedGe = false) :
+    ¬ ∀ r ∈ written (run { Cfg.good with seedGe := c.seedGe } (s0 true) [.commit 1 [(⟨1, false, 0⟩, {})] false, .reopen]),
+        r.ver < (run { Cfg.good with seedGe := c.seedGe } (s0 true) [.commit 1 [(⟨1, false, 0⟩, {})] false, .reopen]).nextTs := by
   rw [hc]; decide
 
 /-! ### non-vacuity -/
 
 /-- three versions of one key across a flush and two reopens; contents unchanged, next timestamp 4 -/
 def demoOps : List Op :=
-  [ .commit 1 [(⟨1, false⟩, {}), (⟨2, true⟩, {})] false, .commit 2 [(⟨1, false⟩, { mrot := true })] false, .flush,
-    .reopen, .commit 3 [(⟨1, true⟩, { vrot := true })] false, .reopen ]
+  [ .commit 1 [(⟨1, false, 0⟩, {}), (⟨2, true, 0⟩, {})] false, .commit 2 [(⟨1, false, 0⟩, { mrot := true })] false, .flush,
+    .reopen, .commit 3 [(⟨1, true, 0⟩, { vrot := true })] false, .reopen ]
 
 example : (written (run Cfg.asis (s0 false) demoOps)).map (fun r => (r.key, r.ver)) = [(1, 1), (2, 1), (1, 2), (1, 3)] := by decide
 example : (run Cfg.asis (s0 false) demoOps).nextTs = 4 := by decide
